@@ -402,3 +402,59 @@ def trace_sweep(res, tier):
         done.append(nm)
     res.bounds['types decided'] = done
     res.outside = (res.outside or []) + ['not encoded: ' + x for x in outside]
+
+
+@obligation('C05.K1.roots_compiler', 'C05', programs=('vm',))
+def roots_compiler(res, tier):
+    """<Compiler as TraceRoot>::trace (the root set while a compilation allocates): every managed reference the compiler holds is
+    handed to a trace (the enclosing compilers / the Vm through `enclosing` / `root_trace`), except the fields listed as assumptions"""
+    skip = {'gc': 'the allocator itself', 'enclosing': 'followed by the trace itself (the chain of enclosing compilers ends in root_trace, the Vm)',
+            'root_trace': 'the context the compilation was started from (the Vm: C05.K1.roots_vm)',
+            'captures': 'capture indices (bytes), no managed references', 'module_table': 'symbol tables borrow the source text, no managed references',
+            'local_tables': 'as module_table', 'locals': 'references into the symbol tables, no managed references', 'errors': 'diagnostics own their strings',
+            'label_emitter': 'a counter', 'cache_id_emitter': 'counters', 'module_symbol_offsets': 'borrowed names and numbers'}
+    global MAXN
+    _tier(tier)
+    MAXN = 1        # the compiler holds a dozen containers; one element each shows whether the element is traced
+    W = TraceWorld('vm')
+    e, P = W.e, W.P
+    e.model(r'^<dyn (laythe_core::)?(managed::)?(\w+::)?TraceRoot as (laythe_core::)?(managed::)?(\w+::)?TraceRoot>::trace$', lambda e_, a, c_: UNIT)
+    c = P._method_cands('compiler::Compiler', 'TraceRoot', 'trace')
+    c = [x for x in c if 'TraceRoot' in str(x[1])] or c
+    if not c:
+        res.inconclusive('<Compiler as TraceRoot>::trace not located')
+        return
+    f = c[0][0]
+    res.bounds = {'elements per container': f'0..{MAXN}', 'references': 'arbitrary identities'}
+    res.assumptions = [f'{k}: {v}' for k, v in skip.items()]
+    ed_opt = P.enum_def('Option')
+
+    def path(e):
+        W.start(e)
+        v = e.fresh('compiler::Compiler', 'compiler')
+        out = []
+        sd = P.struct_def('compiler::Compiler')
+        ix = {n: i for i, (n, _) in enumerate(sd.fields)}
+        v.f[ix['enclosing']] = Cell(EnumV('Option<NonNull<Compiler>>', 0, None, None, ed_opt))
+        for i, (nm, fty) in enumerate(sd.fields):
+            if nm in skip:
+                continue
+            if not W.may_hold_managed(fty):
+                continue
+            W.leaves(e, v.field(e, i, fty).get(e), fty, out, True, 'Compiler.' + nm)
+        e.call(f, [Ref(Cell(v))])
+        traced = e.path_state['traced']
+        n = 0
+        for cond, ident, where in out:
+            n += 1
+            if isinstance(ident, tuple):
+                continue
+            hit = z3.Or(*[ident == t for t in traced]) if traced else z3.BoolVal(False)
+            e.check(z3.Implies(to_z3_bool(cond) if not isinstance(cond, bool) else z3.BoolVal(cond), hit),
+                    'roots of a compilation: every managed reference the compiler holds is traced', {'missing': where})
+        return {'references': n, 'traced': len(traced)}
+    results = e.explore(path)
+    for r in results:
+        if r.kind in ('oob', 'unreachable', 'ub', 'diverge', 'depth', 'panic'):
+            res.fail(f'C05.K1:roots_compiler:{r.kind}', f'compiler roots: path ends in {r.kind}: {str(r.info)[:200]}', {'path': str(r.info)})
+    summarize_paths(res, e, results, lambda r: r.info if isinstance(r.info, dict) else None, key_prefix='C05.K1:roots_compiler:', unwind_ok=False)
